@@ -258,24 +258,64 @@ func uniqStrings(in []string) []string {
 }
 
 // PARA-REST-START
-func ruleParaRestStart(c *Ctx) {
-	c.Rule("PARA-REST-START", "Where a paragraph's onClose hook splits leading link reference definitions off a paragraph, what remains starts where the line-jumping reader stands after the definition's last line ending: every value stored into the Start of the remaining block's span is a load of an inlineByteReader's pos field (of the reader or of a saved copy), or the Start of the span of the child found at such a position — never a value returned as 'end of line' (a raw offset that differs from the reader's position by the container prefix of the next line), never a position adjusted by a byte count. The children kept are those from the node that contains that same position.")
-	p := c.P
-	n := 0
-	for _, fn := range p.Funcs {
-		if fn.Pkg != p.CMs || fn.Blocks == nil {
-			continue
-		}
-		// functions of the shape func(source []byte, b *Block) []*Block that store into b.span.Start
-		var blk *ssa.Parameter
-		if fn.Signature.Params().Len() == 2 && fn.Signature.Results().Len() == 1 {
-			for _, q := range fn.Params {
-				if typeName(deref(q.Type())) == "Block" {
-					blk = q
+//
+// pathHits reports whether some CFG path from (after) instruction from to instruction to executes an instruction
+// satisfying hit on the way, without executing from again.
+func pathHits(from, to ssa.Instruction, hit func(ssa.Instruction) bool) bool {
+	type st struct {
+		b *ssa.BasicBlock
+		h bool
+	}
+	seen := map[st]bool{}
+	found := false
+	var run func(b *ssa.BasicBlock, start int, h bool)
+	run = func(b *ssa.BasicBlock, start int, h bool) {
+		for _, x := range b.Instrs[start:] {
+			if x == from {
+				return
+			}
+			if x == to {
+				if h {
+					found = true
 				}
+				return
+			}
+			if hit(x) {
+				h = true
 			}
 		}
-		if blk == nil {
+		for _, nb := range b.Succs {
+			k := st{nb, h}
+			if !seen[k] && !found {
+				seen[k] = true
+				run(nb, 0, h)
+			}
+		}
+	}
+	run(from.Block(), instrIndex(from)+1, false)
+	return found
+}
+
+func ruleParaRestStart(c *Ctx) {
+	c.Rule("PARA-REST-START", "Where a paragraph's onClose hook splits leading link reference definitions off a paragraph, what remains starts where the line-jumping reader stood right after the line ending that ends the definition. (provenance) Every value stored into the Start of the remaining block's span — followed through a helper's parameter to its call sites — is a load of an inlineByteReader's pos field (of the reader or of a saved copy), possibly clamped to the Start of the first child kept; never a value returned as 'end of line' (a raw offset that differs from the reader's position by the container prefix of the next line), never a position adjusted by a byte count. (pairing) That position belongs to the same moment as the End given to the definition block just before: if End is the result of an end-of-line scan E over reader r, the position is r.pos with no call that is handed r between E and the load, or the pos of a copy of *r made after E with no such call in between. (children) The children kept are looked up at that same position.")
+	p := c.P
+	n := 0
+	readerPosLoad := func(v ssa.Value) (*ssa.UnOp, ssa.Value, bool) { // the load, and the reader (pointer or local copy) it reads
+		fa, ok := isLoadOfField(v, "inlineByteReader", "pos")
+		if !ok {
+			return nil, nil, false
+		}
+		return v.(*ssa.UnOp), fa.X, true
+	}
+	type site struct {
+		fn  *ssa.Function
+		at  ssa.Instruction // the store, or the call of the helper that stores
+		val ssa.Value
+		key string
+	}
+	var sites []site
+	for _, fn := range p.Funcs {
+		if fn.Pkg != p.CMs || fn.Blocks == nil {
 			continue
 		}
 		eachInstr(fn, func(in ssa.Instruction) {
@@ -291,30 +331,161 @@ func ruleParaRestStart(c *Ctx) {
 				return
 			}
 			inner, ok := fa.X.(*ssa.FieldAddr)
-			if !ok || inner.X != ssa.Value(blk) {
+			if !ok {
 				return
 			}
-			n++
-			key := fmt.Sprintf("%s:rest.span.Start#%d", shortFuncName(fn), n)
-			readerPos := func(v ssa.Value) bool {
-				_, ok := isLoadOfField(v, "inlineByteReader", "pos")
-				return ok
+			if tn, f, _ := fieldAddrInfo(inner); tn != "Block" || f != "span" {
+				return
 			}
-			good := readerPos(st.Val)
-			if !good {
-				// Start of the span of an element of the block's inline children
-				if k := termKey(st.Val, 0); strings.Contains(k, "inlineChildren") && strings.HasSuffix(k, ".Start") {
-					good = true
+			blk, ok := inner.X.(*ssa.Parameter)
+			if !ok {
+				return
+			}
+			// only blocks handed in from outside: the paragraph being closed (onClose hooks and their helpers)
+			hook := false
+			if fn.Signature.Params().Len() == 2 && fn.Signature.Results().Len() == 1 {
+				if sl, ok := fn.Signature.Results().At(0).Type().Underlying().(*types.Slice); ok && typeName(deref(sl.Elem())) == "Block" {
+					hook = true
 				}
 			}
-			if !good {
-				c.Viol("PARA-REST-START", key, st.Pos(), "the rest of the paragraph starts at "+describeValue(st.Val)+", which is not the reader's position after the definition")
-				return
+			var leaves []ssa.Value
+			seen := map[ssa.Value]bool{}
+			var w func(v ssa.Value)
+			w = func(v ssa.Value) {
+				if seen[v] {
+					return
+				}
+				seen[v] = true
+				if ph, ok := v.(*ssa.Phi); ok {
+					for _, e := range ph.Edges {
+						w(e)
+					}
+					return
+				}
+				leaves = append(leaves, v)
 			}
-			// the node search that follows uses the same position
-			want := termKey(st.Val, 0)
+			w(st.Val)
+			for _, lf := range leaves {
+				if k := termKey(lf, 0); strings.Contains(k, "inlineChildren") && strings.HasSuffix(k, ".Start") {
+					continue // clamped to the first child kept
+				}
+				if q, ok := lf.(*ssa.Parameter); ok && !hook {
+					// follow the helper's parameter to the call sites, where the block argument is itself a hook's block
+					pi := -1
+					bi := -1
+					for i, fp := range fn.Params {
+						if fp == q {
+							pi = i
+						}
+						if fp == blk {
+							bi = i
+						}
+					}
+					for _, caller := range p.Funcs {
+						eachInstr(caller, func(x ssa.Instruction) {
+							cl, ok := x.(*ssa.Call)
+							if !ok || cl.Call.StaticCallee() != fn || pi >= len(cl.Call.Args) || bi >= len(cl.Call.Args) {
+								return
+							}
+							n++
+							sites = append(sites, site{caller, cl, cl.Call.Args[pi], fmt.Sprintf("%s:rest.span.Start#%d(via %s)", shortFuncName(caller), n, fn.Name())})
+						})
+					}
+					continue
+				}
+				if !hook {
+					return
+				}
+				n++
+				sites = append(sites, site{fn, st, lf, fmt.Sprintf("%s:rest.span.Start#%d", shortFuncName(fn), n)})
+			}
+		})
+	}
+	for _, s := range sites {
+		ld, rd, ok := readerPosLoad(s.val)
+		if !ok {
+			c.Viol("PARA-REST-START", s.key, s.at.Pos(), "the rest of the paragraph starts at "+describeValue(s.val)+", which is not the reader's position after the definition")
+			continue
+		}
+		// pairing with the End of the definition block set just before
+		var endStore *ssa.Store
+		for b := s.at.Block(); b != nil && endStore == nil; b = b.Idom() {
+			lim := len(b.Instrs)
+			if b == s.at.Block() {
+				lim = instrIndex(s.at)
+			}
+			for i := lim - 1; i >= 0; i-- {
+				if st, ok := b.Instrs[i].(*ssa.Store); ok {
+					if fa, ok := st.Addr.(*ssa.FieldAddr); ok {
+						if tn, f, _ := fieldAddrInfo(fa); tn == "Span" && f == "End" {
+							if inner, ok := fa.X.(*ssa.FieldAddr); ok {
+								if tn2, f2, _ := fieldAddrInfo(inner); tn2 == "Block" && f2 == "span" {
+									endStore = st
+									break
+								}
+							}
+						}
+					}
+				}
+			}
+		}
+		bad := ""
+		if endStore != nil {
+			if ecall, ok := endStore.Val.(*ssa.Call); ok {
+				// the reader E scans
+				var r ssa.Value
+				for _, a := range ecall.Call.Args {
+					if typeName(deref(a.Type())) == "inlineByteReader" {
+						r = a
+					}
+				}
+				takesR := func(x ssa.Instruction) bool {
+					cl, ok := x.(*ssa.Call)
+					if !ok || r == nil {
+						return false
+					}
+					for _, a := range cl.Call.Args {
+						if a == r {
+							return true
+						}
+					}
+					return false
+				}
+				switch {
+				case r == nil:
+				case rd == r:
+					if pathHits(ecall, ld, takesR) {
+						bad = "the definition block ends at the line ending found by " + ecall.Call.StaticCallee().Name() + ", but the rest of the paragraph starts at the reader's position after further scanning: the text in between belongs to neither"
+					}
+				default:
+					if al, ok := rd.(*ssa.Alloc); ok {
+						// the copy: *al = *r
+						var cp *ssa.Store
+						for _, ref := range refsOf(al) {
+							if st, ok := ref.(*ssa.Store); ok && st.Addr == ssa.Value(al) {
+								if src, ok := st.Val.(*ssa.UnOp); ok && src.Op == token.MUL && src.X == r {
+									cp = st
+								}
+							}
+						}
+						if cp == nil {
+							bad = "the position is read from a reader that is not a copy of the one the definition was scanned with"
+						} else if pathHits(ecall, cp, takesR) {
+							bad = "the saved copy of the reader was made after further scanning behind the line ending that ends the definition"
+						}
+					}
+				}
+			}
+		}
+		if bad != "" {
+			c.Viol("PARA-REST-START", s.key, s.at.Pos(), bad)
+			continue
+		}
+		// the node search that follows uses the same position
+		want := termKey(s.val, 0)
+		if _, isStore := s.at.(*ssa.Store); isStore {
 			var idxCall *ssa.Call
-			for _, x := range st.Block().Instrs[instrIndex(st)+1:] {
+			for _, x := range s.at.Block().Instrs[instrIndex(s.at)+1:] {
 				if cl, ok := x.(*ssa.Call); ok {
 					if g := cl.Call.StaticCallee(); g != nil && g.Name() == "nodeIndexForPosition" {
 						idxCall = cl
@@ -322,17 +493,17 @@ func ruleParaRestStart(c *Ctx) {
 					}
 				}
 			}
-			if idxCall != nil && len(idxCall.Call.Args) == 2 && readerPos(st.Val) {
+			if idxCall != nil && len(idxCall.Call.Args) == 2 {
 				got := termKey(idxCall.Call.Args[1], 0)
-				c.Check(got == want, "PARA-REST-START", key, st.Pos(), "the remaining children are looked up at "+got+" while the block starts at "+want)
-				return
+				c.Check(got == want, "PARA-REST-START", s.key, s.at.Pos(), "the remaining children are looked up at "+got+" while the block starts at "+want)
+				continue
 			}
-			c.OK("PARA-REST-START", key, st.Pos(), "")
-		})
+		}
+		c.OK("PARA-REST-START", s.key, s.at.Pos(), "")
 	}
-	c.Analysed["paragraph_rest_start_stores"] = n
-	if n < 1 {
-		c.Undecided("PARA-REST-START", "instance-count", token.NoPos, "no store into the Start of a block handed to an onClose-shaped function was found")
+	c.Analysed["paragraph_rest_start_sites"] = len(sites)
+	if len(sites) < 1 {
+		c.Undecided("PARA-REST-START", "instance-count", token.NoPos, "no store into the Start of a paragraph handed to an onClose hook was found")
 	}
 }
 
